@@ -56,26 +56,28 @@ func c05R6(c *Ctx, rule string) {
 			}
 		}
 	}
-	var notRequired func(e ast.Expr, truth bool) bool
-	notRequired = func(e ast.Expr, truth bool) bool {
+	var notRequiredIn func(inf *types.Info, gv map[*types.Var]bool, e ast.Expr, truth bool) bool
+	notRequiredIn = func(inf *types.Info, gv map[*types.Var]bool, e ast.Expr, truth bool) bool {
 		switch v := ast.Unparen(e).(type) {
 		case *ast.UnaryExpr:
 			if v.Op == token.NOT {
-				return notRequired(v.X, !truth)
+				return notRequiredIn(inf, gv, v.X, !truth)
 			}
 		case *ast.BinaryExpr:
 			switch {
 			case v.Op == token.LAND && truth, v.Op == token.LOR && !truth:
-				return notRequired(v.X, truth) || notRequired(v.Y, truth)
+				return notRequiredIn(inf, gv, v.X, truth) || notRequiredIn(inf, gv, v.Y, truth)
 			case v.Op == token.LAND && !truth, v.Op == token.LOR && truth:
-				return notRequired(v.X, truth) && notRequired(v.Y, truth)
+				return notRequiredIn(inf, gv, v.X, truth) && notRequiredIn(inf, gv, v.Y, truth)
 			}
 		case *ast.Ident:
-			vv := core.VarOf(info, v)
-			return vv == graceful && !truth || already[vv] && truth
+			vv := core.VarOf(inf, v)
+			return gv[vv] && !truth || already[vv] && truth
 		}
 		return false
 	}
+	gracefulVars := map[*types.Var]bool{graceful: true}
+	notRequired := func(e ast.Expr, truth bool) bool { return notRequiredIn(info, gracefulVars, e, truth) }
 	directCall := func(info *types.Info, n ast.Node) bool {
 		found := false
 		core.InspectShallow(n, func(x ast.Node) bool {
@@ -89,7 +91,7 @@ func c05R6(c *Ctx, rule string) {
 		return found
 	}
 	// does every graceful path of graph lg (a closure of close, or a helper) call the queue's GracefulClose?
-	qualifies := func(lg *core.Graph) bool {
+	qualifiesWith := func(lg *core.Graph, gv map[*types.Var]bool) bool {
 		pts := map[int]bool{}
 		for _, n := range lg.Nodes {
 			if n.Ast == nil {
@@ -109,10 +111,11 @@ func c05R6(c *Ctx, rule string) {
 			return false
 		}
 		reach := lg.ReachFromEntry(func(x int) bool { return pts[x] }, func(from, idx int, e core.Edge) bool {
-			return e.Cond != nil && e.Tag == nil && e.Branch != 0 && notRequired(e.Cond, e.Branch == 1)
+			return e.Cond != nil && e.Tag == nil && e.Branch != 0 && notRequiredIn(lg.Info, gv, e.Cond, e.Branch == 1)
 		})
 		return !reach[lg.Exit]
 	}
+	qualifies := func(lg *core.Graph) bool { return qualifiesWith(lg, gracefulVars) }
 	// closures bound to locals of close()
 	closureOK := map[*types.Var]bool{}
 	ast.Inspect(closeFn.Decl.Body, func(x ast.Node) bool {
@@ -156,22 +159,16 @@ func c05R6(c *Ctx, rule string) {
 			if fn := core.Callee(info, call); fn != nil && fn != gcFn.Obj {
 				if d := c.P.DeclOf(fn); d != nil && d.Pkg == closeFn.Pkg && d.Decl != nil && d.Decl.Body != nil && d != closeFn {
 					if hg := c.P.GraphOf(d); hg != nil {
-						hp := false
-						for _, hn := range hg.Nodes {
-							if hn.Ast != nil && directCall(hg.Info, hn.Ast) {
-								hp = true
+						// the helper's bool parameters that receive the graceful flag play its role inside the helper
+						gv := map[*types.Var]bool{}
+						hsig := fn.Type().(*types.Signature)
+						for k, a := range call.Args {
+							if k < hsig.Params().Len() && core.VarOf(info, a) == graceful {
+								gv[hsig.Params().At(k)] = true
 							}
 						}
-						if hp {
-							hpts := map[int]bool{}
-							for _, hn := range hg.Nodes {
-								if hn.Ast != nil && directCall(hg.Info, hn.Ast) {
-									hpts[hn.ID] = true
-								}
-							}
-							if !hg.ReachFromEntry(func(y int) bool { return hpts[y] }, nil)[hg.Exit] {
-								pts[n.ID] = true
-							}
+						if qualifiesWith(hg, gv) {
+							pts[n.ID] = true
 						}
 					}
 				}
